@@ -344,7 +344,8 @@ def check_layouts(prog, rep, m):
             if isinstance(n, ast.Assign) and isinstance(n.targets[0], ast.Name) and isinstance(n.value, ast.Call) and \
                     short(n.value) in ('zeros', 'empty', 'ones', 'full') and n.value.args:
                 a0 = n.value.args[0]
-                w = const(a0.elts[-1]) if isinstance(a0, ast.Tuple) and a0.elts else None
+                # the record width: last component of a shape tuple, or the plain integer of a 1-D allocation (`zeros(7)` = `zeros((7,))`)
+                w = const(a0.elts[-1]) if isinstance(a0, ast.Tuple) and a0.elts else (const(a0) if isinstance(a0, ast.Constant) else None)
                 if not isinstance(w, int) or isinstance(w, bool) or w > 16:
                     continue
                 name = n.targets[0].id
@@ -438,7 +439,7 @@ def check_encoding(prog, rep, m):
                 b_ = dict(zip(sv_.params, c.args))
                 b_.update({k_.arg: k_.value for k_ in c.keywords if k_.arg})
                 a_ = [b_.get(p_) for p_ in sv_.params[:4]]
-                if all(x is not None for x in a_) and T(a_[0]) in init.params and T(a_[1]) == rowv and T(a_[2]) == colv and const(a_[3]) == 180:
+                if all(x is not None for x in a_) and T(a_[0]) in init.params and T(a_[1]) == rowv and T(a_[2]) == colv and _const_value(prog, m, a_[3]) == 180:
                     ok = True
     rep.add('T5', init, entry, 'observer cell = 180 and generates no events', init.node.lineno, ok, '')
     sv = m.funcs.get('_set_visibility')
@@ -529,6 +530,18 @@ def check_axes(prog, rep, m):
             raise AnalysisIncomplete('%s not found' % fn)
         check_gradient(prog, rep, m, f, entry)
     check_wrapper(prog, rep, m, entry)
+
+
+def _const_value(prog, m, e):
+    """value of a constant expression, module-level constants folded (`VIEWPOINT_ANG = 180`)"""
+    v = const(e)
+    if v is not None:
+        return v
+    try:
+        from ..consteval import fold_expr
+        return fold_expr(prog, m, e)
+    except Exception:      # noqa
+        return None
 
 
 def check_wrapper(prog, rep, m, entry):
